@@ -466,6 +466,15 @@ static vbi_dvb_mux *mux_new(const struct h_cfg *c)
         if (vbi_dvb_mux_get_min_pes_packet_size(mx) != c->minsz || vbi_dvb_mux_get_max_pes_packet_size(mx) != c->maxsz
             || vbi_dvb_mux_get_data_identifier(mx) != c->did)
                 h_viol("configuration not taken over (getters return other values than were set)", "min=%u max=%u did=%02x", vbi_dvb_mux_get_min_pes_packet_size(mx), vbi_dvb_mux_get_max_pes_packet_size(mx), vbi_dvb_mux_get_data_identifier(mx));
+        /* a refused setter call leaves the multiplexer as it was: every execution continues behind refused data_identifier
+         * values of both kinds (the documentation permits 0x10..0x1F and 0x99..0x9B only), the output is judged for c->did */
+        static const unsigned refused[] = { 0x00, 0x0F, 0x20, 0x50, 0x98, 0x9C, 0xFF, 0x110 };
+        for (unsigned i = 0; i < sizeof refused / sizeof *refused; i++) {
+                if (vbi_dvb_mux_set_data_identifier(mx, refused[i]))
+                        h_viol("set_data_identifier accepts a value outside the documented ranges", "%#x", refused[i]);
+                if (vbi_dvb_mux_get_data_identifier(mx) != c->did)
+                        h_viol("refused set_data_identifier changed the data_identifier", "after %#x: %02x, was %02x", refused[i], vbi_dvb_mux_get_data_identifier(mx), c->did);
+        }
         return mx;
 }
 static void run_begin(struct run *r, const struct h_cfg *c)
